@@ -1751,6 +1751,7 @@ def check_grid_transfer(ck, fn):
                       render(obj), {"F": "fine", "C": "coarse"}.get(so, "?"), render(a), fmt_kind(kd), "" if ok else " — expected the cell index of that mesh (after the mesh permutation lookup)"),
                   fn.file, c.get("l"), sample={"object": render(obj), "index": render(a), "kind": fmt_kind(kd)})
             n_prep += 1
+    check_accumulators(ck, fn, g, fkey, calls)
     # ---- local dof indices ----------------------------------------------------------------------
     locmat = {}       # decl of a Tiny matrix/vector local -> list of index-kind tuples seen
     for n in fn.nodes():
@@ -1970,6 +1971,125 @@ def check_grid_transfer(ck, fn):
     check_refine_points(ck, fn, g, fkey, calls)
 
 
+def check_accumulators(ck, fn, g, fkey, calls, rule="E7.local-accumulator-reset"):
+    """writer / reader contract of the local Tiny matrices and vectors of an assembler: a local X that is accumulated into (X(i,j) += ..., X[i] += ...,
+    GatherAxpy(X, mapping) — an axpy, not an assignment) and consumed (inverted, multiplied, scattered, read) holds the contribution of ONE iteration
+    of the innermost loop C that contains both the accumulation and the consumer only if X is reset (format() / assigned as a whole) inside C, before
+    the accumulation.  A reset hoisted out of C leaves the sum over all earlier iterations in X from the second iteration on."""
+    rs, par, cfg = g.rs, g.par, fn.cfg
+    if cfg is None:
+        return
+    tiny = {}
+    for d, v in rs.vars.items():
+        t = fn.type(v.get("t")) if v.get("t") is not None else ""
+        if re.search(r"\bTiny::(Matrix|Vector)<", t) and not v.get("ref") and not t.strip().endswith("*"):
+            tiny[d] = v
+
+    def base_local(x):
+        """decl of the Tiny local an element access / expression denotes"""
+        for _ in range(4):
+            if x is None:
+                return None
+            if x.get("k") == "Ref":
+                return x.get("d") if x.get("d") in tiny else None
+            if x.get("k") == "OpCall" and x.get("op") in ("()", "[]") and x.get("a"):
+                x = x["a"][0]
+            elif x.get("k") == "Index":
+                x = x.get("b")
+            elif x.get("k") == "Member":
+                x = x.get("b")
+            else:
+                return None
+        return None
+    acc, resets, reads, opaque = {}, {}, {}, {}
+    claimed = set()
+    for n in dfl.own_nodes(fn):
+        k = n.get("k")
+        if k == "Assign" and n.get("op") in ("+=", "-=") and base_local(n["lhs"]) is not None and n["lhs"].get("k") != "Ref":
+            acc.setdefault(base_local(n["lhs"]), []).append(n)
+            for x in walk(n["lhs"]):
+                claimed.add(id(x))
+        elif k == "Assign" and n.get("op") == "=" and n["lhs"].get("k") == "Ref" and n["lhs"].get("d") in tiny:
+            resets.setdefault(n["lhs"]["d"], []).append(n)
+            claimed.add(id(n["lhs"]))
+        elif k == "OpCall" and n.get("op") == "()" and re.search(r"::GatherAxpy::operator\(\)$", n.get("callee", "") or ""):
+            lv = dfl.arg_by_param(n, "loc_vec")
+            d = base_local(lv) if lv is not None else None
+            if d is not None:
+                acc.setdefault(d, []).append(n)
+                claimed.add(id(lv))
+        elif k == "MCall" and (n.get("obj") or {}).get("k") == "Ref" and n["obj"].get("d") in tiny and not n.get("cconst"):
+            d = n["obj"]["d"]
+            nm = callee_name(n)
+            if nm == "format" or nm.startswith("set_"):
+                resets.setdefault(d, []).append(n)          # the whole object is overwritten
+                claimed.add(id(n["obj"]))
+            elif nm.startswith("add_") or nm in ("axpy", "scale"):
+                acc.setdefault(d, []).append(n)
+                claimed.add(id(n["obj"]))
+    for n in dfl.own_nodes(fn):
+        if n.get("k") == "Ref" and n.get("d") in tiny and id(n) not in claimed:
+            # any other use: a consumer (argument of a call, element read, address of the data)
+            stmt = n
+            for node, slot in dfl.enclosing_stmt_chain(par, n):
+                if "i" in node and cfg.block_of(node["i"]) is not None:
+                    stmt = node
+                    break
+            reads.setdefault(n["d"], []).append((n, stmt))
+            pr = par.get(id(n))
+            if pr is not None and is_call(pr[0]) and pr[0].get("k") in ("Call",) and not KNOWN_READERS.match(strip_targs(pr[0].get("callee", "") or "")):
+                for a, pn_, pt_ in dfl.call_args_with_params(pr[0], fn):
+                    if a is n and pt_ is not None and is_nonconst_ref(pt_):
+                        opaque.setdefault(n["d"], []).append(pr[0])
+    for d in sorted(acc, key=lambda d_: tiny[d_].get("l") or 0):
+        v = tiny[d]
+        key = "%s/%s" % (fkey, v["n"])
+        if not reads.get(d):
+            continue
+        problems, doubts = [], []
+        for a in acc[d]:
+            la = norm.loops_around(par, a)
+            # the loop whose every iteration needs a fresh X: innermost loop containing the accumulation and a consumer; with several consumers the
+            # shallowest such loop (a read inside the accumulation loop itself is a partial read, not the consumer of the finished sum)
+            C, depth_c = None, 0
+            for rn, rstmt in reads[d]:
+                lr_ = norm.loops_around(par, rn)
+                common = []
+                for x, y in zip(la, lr_):
+                    if x is not y:
+                        break
+                    common.append(x)
+                if common and (C is None or len(common) < depth_c):
+                    C, depth_c = common[-1], len(common)
+            if C is None:
+                continue
+            decl_in = [x for x in dfl.enclosing_loops(fn, par, v) if x is C]
+            good = [r for r in resets.get(d, []) if any(x is C for x in norm.loops_around(par, r)) and "i" in r and "i" in a and cfg.stmt_dominates(r["i"], a["i"])]
+            if good:
+                continue
+            if decl_in:
+                doubts.append((a.get("l"), "%s is declared inside the loop; whether its initial value is zero is not modelled" % v["n"]))
+                continue
+            if opaque.get(d):
+                doubts.append((a.get("l"), "%s is handed to %s, which is not modelled and may reset it" % (v["n"], render(opaque[d][0])[:50])))
+                continue
+            outside = [r for r in resets.get(d, []) if not any(x is C for x in norm.loops_around(par, r))]
+            problems.append((a.get("l"), "%s accumulates into %s in every iteration of the loop at line %s, where it is also consumed (%s), but %s is %s: from the second iteration on it "
+                             "still holds the contributions of the previous iterations" % (
+                                 render(a)[:50], v["n"], C.get("l"), render(reads[d][0][1])[:40], v["n"],
+                                 ("reset only outside that loop (line %s)" % outside[0].get("l")) if outside else "not reset before the accumulation in that loop")))
+        if doubts and not problems:
+            ck.incomplete(rule, "%s: %s" % (key, "; ".join(sorted({"line %s: %s" % d_ for d_ in doubts}))[:300]))
+            continue
+        uniq = list({p_[1]: p_ for p_ in problems}.values())
+        ck.ob(rule, key, not uniq, "; ".join("line %s: %s" % p_ for p_ in uniq) or
+              "%s is reset (format / assigned as a whole) inside the innermost loop that contains both its %d accumulation site(s) and its consumers, before the accumulation" % (v["n"], len(acc[d])),
+              fn.file, uniq[0][0] if uniq else v.get("l"))
+
+
+KNOWN_READERS = re.compile(r"^FEAT::Math::(invert_matrix|isnormal|abs|sqr|sqrt)$")
+
+
 def local_writes(fn, d, skip=()):
     """statements that may write the local object d other than the calls in `skip`: assignments to it / its elements, non-const member calls,
     passing it to a non-const reference parameter"""
@@ -2167,6 +2287,10 @@ def declare_rules(ck):
             "M^-1*N is wrong for every non-commuting pair, i.e. every element with more than one local dof", 13)
     ck.rule("E7.weight-per-projection", "the weight vector receives exactly one scatter of an all-ones local vector per inverted local mass matrix (same innermost loop), so that "
             "weight(dof) = number of local projections added to the row of that dof", 13)
+    ck.rule("E7.local-accumulator-reset", "GridTransfer assemblers: a local Tiny matrix / vector that is accumulated into (X(i,j) += ..., GatherAxpy(X, mapping) — an axpy, not an "
+            "assignment) and consumed (inverted, multiplied, scattered) is reset (format() / assigned as a whole) inside the innermost loop that contains both the accumulation and the "
+            "consumer, before the accumulation. Broken (reset hoisted out of the cell loop) => from the second cell on the local still holds the sum over the cells visited so far: wrong "
+            "for every mesh with more than one coarse cell", 32)
     ck.rule("E2.refined-point", "the coarse evaluator is evaluated at point child*n+k of the rule refined from the rule whose point k the fine evaluator uses "
             "(layout i*n+j of Cubature::RefineFactoryCore); any other index pairs fine and coarse basis values at different physical points", 13)
 
@@ -2324,7 +2448,9 @@ def run(tier):
         "restriction is the transpose of the stored prolongation after its last modification in all 8 control-layer assembly entry points, the 5 composite system levels, "
         "tutorial 05 (thorough: + poisson_scarc, meshopt control); weight vectors are synchronised, inverted exactly once and scale the rows on every path; (3) GridTransfer "
         "assemblers: cell-index kinds incl. both permutation lookups, CoarseFineCellMapping argument roles, scatter row/column mappings against the functions' own XASSERTs, "
-        "local dof index kinds, M^-1*N operand order, one weight increment per local projection, refined cubature point index. NOT decided: exactness on the coarse space, "
+        "local dof index kinds, M^-1*N operand order, one weight increment per local projection, refined cubature point index, local accumulators (mass / inter-level matrices, "
+        "gathered coarse vector) reset inside the loop in which they are accumulated and consumed. Index computations extracted into helpers are followed through the helpers' return values, "
+        "statement-level helpers and non-generic closures of the same file are inlined for the typestate rules. NOT decided: exactness on the coarse space, "
         "T*P = I, numerical agreement of the assembled and matrix-free routes (only a textual cross-reference note), correctness of transpose()/apply() themselves (C01/C02), "
         "assemble_intermesh_transfer / transfer_intermesh_vector (not anchored), Transfer::convert (member template, not instantiated), transfers built in benchmarks/area51, "
         "GridTransfer on StructuredMesh (does not instantiate: StructuredMesh has no get_mesh_permutation(); not a documented-supported argument).")
